@@ -505,8 +505,14 @@ func (OrderOracle) AfterCycle(r *Run, cycle int, all []Decision) {
 		return
 	}
 	placed := map[string]bool{}
+	firstAt := map[string]int{} // group -> index of its first allocate placement among the allocate placements
+	var order []string
 	for _, d := range okDecisions(all) {
 		if d.Action == "allocate" && (d.Kind == "bind" || d.Kind == "pipeline") {
+			if !placed[d.Group] {
+				firstAt[d.Group] = len(order)
+				order = append(order, d.Group)
+			}
 			placed[d.Group] = true
 		}
 	}
@@ -545,7 +551,13 @@ func (OrderOracle) AfterCycle(r *Run, cycle int, all []Decision) {
 				}
 				r.Probe("c16_comparable_pairs")
 				if placed[b.Name] && !placed[a.Name] {
-					r.Fail("C16", "order", "cycle %d: allocate placed %s (priority %d, created %s) but not the identical %s (priority %d, created %s) of queue %s",
+					rule := "order"
+					if firstAt[b.Name] > 0 {
+						// some other workload was placed between the (failed) attempt for a and the attempt for b: the
+						// cluster b was tried on is not the cluster a was tried on (greedy per-task node choice)
+						rule = "order_after_intervening_placement"
+					}
+					r.Fail("C16", rule, "cycle %d: allocate placed %s (priority %d, created %s) but not the identical %s (priority %d, created %s) of queue %s",
 						cycle, b.Name, b.Priority, b.Created.Format(time.RFC3339), a.Name, a.Priority, a.Created.Format(time.RFC3339), a.Queue)
 				}
 			}
